@@ -4,7 +4,7 @@ Three explicit state spaces, all pushed through the real macro (recorder hook), 
 proc-macro API token level (the recorder writes the token trees exactly as the API presents them):
 
   fn   : default fn + <= k deviations over 8 syntactic dimensions
-  mod  : module item words over the 18-symbol item alphabet
+  mod  : module item words over the 24-symbol item alphabet
   impl : impl-block item words over 6 symbols
 
 Model = identity: input tokens are a prefix of the output (fn), the module's items are a prefix of
